@@ -4,72 +4,23 @@
   Model: `Lumina/Model/Sample.lean` (`verify` = `Sample::verify` after the `fix:` commit, `verifyUnfixed` = before),
   over the nmt-rs model `Lumina/Model/Nmt.lean` and the square/DAH model `Lumina/Model/Eds.lean`.
   Spec: `Lumina/Spec/C04.lean` (`specVerify`, `specHonest`), which does not mention the model.
-  The hash is a parameter; soundness is stated under the idealised-hash hypothesis `HashOK H`
-  (injective, 32-byte output) and, equivalently, in the "accepts a wrong share ⇒ explicit collision" form.
+  The hash is a parameter.  Soundness is stated under the idealised-hash hypothesis `HashOK H` (injective,
+  32-byte output) and, equivalently, in the "accepting a wrong share yields an explicit collision" form, which
+  is satisfiable by real hash functions.  Completeness needs only the 32-byte output length.
 -/
-import Lumina.Proofs.Eds
-import Lumina.Model.Sample
-import Lumina.Spec.C04
+import Lumina.Proofs.Sample
+import Lumina.Gen.C04
 
 namespace Lumina.Props.C04
 open Lumina.Util Lumina.Model.Nmt Lumina.Model.Eds Lumina.Model.Sample
-open Lumina.Proofs.Nmt Lumina.Proofs.Eds Lumina.Spec.C04
+open Lumina.Proofs.Nmt Lumina.Proofs.Eds Lumina.Proofs.Sample Lumina.Spec.C04
 
-/-- observed verdict of a verification -/
-def accepted {ε} (r : Except ε Unit) : Bool :=
-  match r with
-  | .ok _ => true
-  | .error _ => false
-
-/-- the square as the spec sees it: the plain row-major list of share byte strings -/
-def rawSquare (e : Eds) : List Bytes := e.shares.map Share.data
-
-theorem share_ns_length {sh : Share} (h : NS_SIZE ≤ sh.data.length) : sh.ns.length = NS_SIZE := by
-  unfold Share.ns
-  split
-  · simp [parityNs, maxNsId]
-  · simp [List.length_take]; omega
-
-/-- what an accepted single-leaf range proof against an axis root says about the axis' shares -/
-theorem axis_leaf_bound {H : HashFn} (hk : HashOK H) {e : Eds} {k : Nat} (hw : e.width = 2 ^ k)
-    (hsz : ∀ sh ∈ e.shares, NS_SIZE ≤ sh.data.length) {ax : Axis} {index i : Nat} {root : NsHash}
-    (hroot : e.axisRoot H ax index = .ok root) (hi : i < e.width)
-    {s : Sample} (hss : NS_SIZE ≤ s.share.data.length) (hsib : ∀ p ∈ s.proof.siblings, p.WF)
-    (hv : verifyRange H s.proof root [s.share.data] s.share.ns = .ok ()) (hst : s.proof.start = i) :
-    ∃ sh, e.share? (axisCoord ax index i).1 (axisCoord ax index i).2 = some sh ∧ sh.data = s.share.data := by
-  obtain ⟨shares, hax, hcr⟩ := axisRoot_ok hroot
-  obtain ⟨hlen, hget⟩ := axis?_some hax
-  obtain ⟨sh, hsh, hshi⟩ := hget i hi
-  refine ⟨sh, hsh, ?_⟩
-  -- every share of the axis is a share of the square
-  have hmem : ∀ x ∈ shares, x ∈ e.shares := by
-    intro x hx
-    obtain ⟨n, hn, rfl⟩ := List.getElem_of_mem hx
-    obtain ⟨y, hy1, hy2⟩ := hget n (by omega)
-    rw [List.getElem?_eq_getElem hn] at hy2
-    injection hy2 with hy2
-    rw [hy2]
-    exact List.mem_of_getElem? hy1
-  have al : AllLeaf H (shares.map (Share.leafHash H)) := by
-    intro x hx
-    obtain ⟨y, hy, rfl⟩ := List.mem_map.mp hx
-    exact ⟨y.ns, y.data, share_ns_length (hsz y (hmem y hy)), rfl⟩
-  have lx : IsLeaf H (hashLeaf H s.share.ns s.share.data) := ⟨_, _, share_ns_length hss, rfl⟩
-  unfold verifyRange at hv
-  split at hv
-  · cases hv
-  · split at hv
-    · cases hv
-    · simp only [List.map_cons, List.map_nil] at hv
-      rw [hst] at hv
-      have hL : (shares.map (Share.leafHash H)).length = 2 ^ k := by simp [hlen, hw]
-      have hik : i < 2 ^ k := by omega
-      have := checkRangeProof_single_sound hk al hL hcr lx hsib hik hv
-      rw [List.getElem?_map, hshi] at this
-      simp only [Option.map_some, Option.some.injEq, Share.leafHash] at this
-      have hns : sh.ns = s.share.ns := congrArg NsHash.minNs this
-      have hh : (hashLeaf H sh.ns sh.data).hash = (hashLeaf H s.share.ns s.share.data).hash := congrArg NsHash.hash this
-      exact (hashLeaf_inj hk (by rw [hns]) hh).2
+/-- the sizes the model and the theorems use are the ones in the current source tree -/
+theorem consts_eq :
+    Lumina.Gen.C04.NS_SIZE = 29 ∧ Lumina.Gen.C04.NS_SIZE = Lumina.Model.Nmt.NS_SIZE ∧
+    Lumina.Gen.C04.HASH_SIZE = Lumina.Model.Nmt.HASH_LEN ∧
+    Lumina.Gen.C04.SHARE_SIZE = 512 ∧ Lumina.Gen.C04.SHARE_SIZE = Lumina.Model.Eds.SHARE_SIZE := by
+  decide
 
 /-- **Soundness, both proof axes, every square of power-of-two width, every sample, every coordinate.**
     `Sample::verify` (as fixed) accepts only if the sample's share is exactly the share at the requested row and
@@ -126,5 +77,70 @@ theorem sample_sound {H : HashFn} (hk : HashOK H) {e : Eds} {k : Nat} (hw : e.wi
         unfold Eds.share? at hsh
         simp only [accepted, specVerify, shareAt, hrow, hcol, and_self, ↓reduceIte, rawSquare, Bool.not_true,
           Bool.false_or, List.getElem?_map, hsh, Option.map_some, hdata, beq_self_eq_true]
+
+
+/-- Soundness in reduction form (satisfiable by real hashes): for a hash with 32-byte output, either the
+    verdict is sound or the hash has an explicit collision. -/
+theorem sample_sound_or_collision {H : HashFn} (hl : HashLen H) {e : Eds} {k : Nat} (hw : e.width = 2 ^ k)
+    (hsz : ∀ sh ∈ e.shares, NS_SIZE ≤ sh.data.length) {dah : Dah} (hd : Dah.ofEds H e = .ok dah)
+    (s : Sample) (hss : NS_SIZE ≤ s.share.data.length) (hsib : ∀ p ∈ s.proof.siblings, p.WF) (row col : Nat) :
+    specVerify e.width (rawSquare e) row col s.share.data (accepted (verify H s row col dah)) = true ∨
+      ∃ x y, x ≠ y ∧ H x = H y := by
+  by_cases hinj : Function.Injective H
+  · exact Or.inl (sample_sound ⟨hinj, hl⟩ hw hsz hd s hss hsib row col)
+  · right
+    unfold Function.Injective at hinj
+    have : ∃ x y, H x = H y ∧ x ≠ y := by
+      apply Classical.byContradiction
+      intro hn
+      apply hinj
+      intro a b hab
+      apply Classical.byContradiction
+      intro hne
+      exact hn ⟨a, b, hab, hne⟩
+    obtain ⟨x, y, h1, h2⟩ := this
+    exact ⟨x, y, h2, h1⟩
+
+/-- **Completeness.**  For every valid square (what `ExtendedDataSquare::new` accepts), every coordinate inside
+    it and both proof axes: `Sample::new` succeeds, encoding and decoding (`RawSample`) gives the sample back, and
+    `Sample::verify` accepts it; the sample carries the share at the coordinate. -/
+theorem sample_complete {H : HashFn} (hl : HashLen H) {e : Eds} {k : Nat} (hv : ValidSquare e k)
+    {dah : Dah} (hd : Dah.ofEds H e = .ok dah) (row col : Nat) (hr : row < e.width) (hc : col < e.width) (ax : Axis) :
+    ∃ s, Lumina.Model.Sample.new H e row col ax = .ok s ∧ fromRaw row col (toRaw s) = .ok s ∧
+      specHonest e.width (rawSquare e) row col (some s.share.data) (accepted (verify H s row col dah)) = true := by
+  obtain ⟨s, h1, h2, h3, h4⟩ := sample_complete_core hl hv hd row col hr hc ax
+  refine ⟨s, h1, h2, ?_⟩
+  unfold Eds.share? at h4
+  simp [specHonest, shareAt, hr, hc, rawSquare, List.getElem?_map, h4, h3, accepted]
+
+/-! ### The defect that was fixed: before the fix the full-strength statement was FALSE -/
+
+/-- an injective toy hash (identity) for concrete evaluation -/
+def toyH : HashFn := fun x => x
+/-- 2×2 square with one-byte shares: (0,0) is original data, the rest parity -/
+def cexEds : Eds := Eds.ofRaw 2 [[1], [2], [3], [4]]
+def cexDah : Dah := match Dah.ofEds toyH cexEds with | .ok d => d | .error _ => default
+/-- the honest sample of position (0,1), row proof -/
+def cexSample : Sample := match Lumina.Model.Sample.new toyH cexEds 0 1 .row with | .ok s => s | .error _ => default
+
+/-- `Sample::verify` as it was BEFORE the fix accepts the honest sample of (0,1) for the coordinates (0,0):
+    the soundness statement fails for the unfixed model, even with an injective hash. -/
+theorem sample_sound_unfixed_counterexample :
+    Function.Injective toyH ∧ Dah.ofEds toyH cexEds = .ok cexDah ∧
+    specVerify cexEds.width (rawSquare cexEds) 0 0 cexSample.share.data
+      (accepted (verifyUnfixed toyH cexSample 0 0 cexDah)) = false :=
+  ⟨fun _ _ h => h, rfl, by decide⟩
+
+/-- … and the fixed `verify` rejects exactly that input while still accepting it at its own coordinates -/
+theorem sample_fixed_on_counterexample :
+    accepted (verify toyH cexSample 0 0 cexDah) = false ∧ accepted (verify toyH cexSample 0 1 cexDah) = true := by
+  decide
+
+/-! ### Non-vacuity -/
+
+/-- the hypotheses of `sample_sound` other than `HashOK` (which no function satisfies: the theorem is the usual
+    collision reduction, see `sample_sound_or_collision`) hold of a concrete square and an accepted sample -/
+example : cexEds.width = 2 ^ 1 ∧ Dah.ofEds toyH cexEds = .ok cexDah ∧
+    accepted (verify toyH cexSample 0 1 cexDah) = true := ⟨rfl, rfl, by decide⟩
 
 end Lumina.Props.C04
